@@ -413,15 +413,20 @@ Inductive op :=
 | Deposit (who : nat) (d1 : nat) (a1 : Z) (d2 : nat) (a2 : Z) (slip : Z)
 | Withdraw (who : nat) (shares : Z) (d1 : nat) (m1 : Z) (d2 : nat) (m2 : Z)
 | SwapIn (who : nat) (din : nat) (ain : Z) (dout : nat) (bdes : Z) (slip : Z)
-| SwapOut (who : nat) (din : nat) (amax : Z) (dout : nat) (bex : Z) (slip : Z).
+| SwapOut (who : nat) (din : nat) (amax : Z) (dout : nat) (bex : Z) (slip : Z)
+(* a plain bank MsgSend from a user to the swap module account (bank msg server):
+   the module account is a blocked address (app.go loadBlockedMaccAddrs), so it is refused *)
+| BankSend (who : nat) (d : nat) (amt : Z).
 
 Definition op_who (o : op) : nat :=
   match o with
   | Deposit w _ _ _ _ _ | Withdraw w _ _ _ _ _ | SwapIn w _ _ _ _ _ | SwapOut w _ _ _ _ _ => w
+  | BankSend w _ _ => w
   end.
 Definition op_denoms (o : op) : nat * nat :=
   match o with
   | Deposit _ d1 _ d2 _ _ | Withdraw _ _ d1 _ d2 _ | SwapIn _ d1 _ d2 _ _ | SwapOut _ d1 _ d2 _ _ => (d1, d2)
+  | BankSend _ d _ => (d, d)
   end.
 
 (* the harness only names user accounts and known denoms *)
@@ -435,6 +440,7 @@ Definition step (e : env) (s : kstate) (o : op) : outcome kstate (list Z) :=
   | Withdraw w shs d1 m1 d2 m2 => withdraw e s w shs d1 m1 d2 m2
   | SwapIn w d1 a d2 b sl => swap_exact_for_tokens e s w d1 a d2 b sl
   | SwapOut w d1 a d2 b sl => swap_for_exact_tokens e s w d1 a d2 b sl
+  | BankSend _ _ _ => Err
   end.
 
 Definition step' (e : env) (s : kstate) (o : op) : kstate :=
